@@ -44,12 +44,16 @@ class FetchRule(HookableMixin):
         self.hook_dispatcher.register(PluginFunctions.accept_url)
 
     @asyncio.coroutine
-    def consult_robots_txt(self, request: HTTPRequest) -> bool:
+    def consult_robots_txt(self, request: HTTPRequest,
+                           url_record: Optional[URLRecord]=None) -> bool:
         '''Consult by fetching robots.txt as needed.
 
         Args:
             request: The request to be made
                 to get the file.
+            url_record: The record of the item on whose behalf the file
+                is fetched. If given, a redirect of robots.txt is followed
+                only to a URL that the URL filters accept for that item.
 
         Returns:
             True if can fetch
@@ -59,7 +63,15 @@ class FetchRule(HookableMixin):
         if not self._robots_txt_checker:
             return True
 
-        result = yield from self._robots_txt_checker.can_fetch(request)
+        def redirect_filter(redirect_request):
+            if url_record is None:
+                return True
+
+            return self.consult_filters(
+                redirect_request.url_info, url_record, is_redirect=True)[0]
+
+        result = yield from self._robots_txt_checker.can_fetch(
+            request, redirect_filter=redirect_filter)
         return result
 
     def consult_helix_fossil(self) -> bool:
@@ -169,7 +181,8 @@ class FetchRule(HookableMixin):
         verdict, reason, test_info = self.consult_filters(item_session.request.url_info, item_session.url_record)
 
         if verdict and self._robots_txt_checker:
-            can_fetch = yield from self.consult_robots_txt(request)
+            can_fetch = yield from self.consult_robots_txt(
+                request, item_session.url_record)
 
             if not can_fetch:
                 verdict = False
